@@ -75,6 +75,23 @@ func leavePointer(m *seenPointers, v reflect.Value) {
 	delete(*m, p)
 }
 
+// hasPointerCycle reports whether following v through non-nil pointers
+// and interfaces leads back to a pointer that was already followed.
+func hasPointerCycle(v reflect.Value) bool {
+	var seen []typedPointer // chains are short; a linear search suffices
+	for (v.Kind() == reflect.Pointer || v.Kind() == reflect.Interface) && !v.IsNil() {
+		if v.Kind() == reflect.Pointer {
+			p := typedPointer{v.Type(), v.UnsafePointer(), 0}
+			if slices.Contains(seen, p) {
+				return true
+			}
+			seen = append(seen, p)
+		}
+		v = v.Elem()
+	}
+	return false
+}
+
 func sliceLen(v reflect.Value) int {
 	if v.Kind() == reflect.Slice {
 		return v.Len()
@@ -1766,6 +1783,11 @@ func makePointerArshaler(t reflect.Type) *arshaler {
 				return newUnmarshalErrorBeforeWithSkipping(dec, t, errInvalidStringTag)
 			}
 			uo.Flags.Clear(jsonflags.StringTag) // the `string` tag option does not apply to nested pointers
+		}
+		// Unmarshaling into an existing chain of pointers and interfaces
+		// consumes no JSON input, so a cyclic chain would never terminate.
+		if mayCycleWithoutDepth && !va.IsNil() && hasPointerCycle(va.Value) {
+			return newUnmarshalErrorBeforeWithSkipping(dec, t, internal.ErrCycle)
 		}
 		once.Do(init)
 		unmarshal := valFncs.unmarshal
